@@ -500,6 +500,11 @@ def plain_default(rng):
         return str(rng.randrange(-50, 5000))
     if r < 0.6:
         return rng.choice(['0.5', '-1.25', '1e5', '255 255 255', '0 0 0', '--', '-', '1-2'])
+    if r < 0.66:
+        # integer-looking text that is not the canonical spelling of its value: a writer that goes through
+        # int()/float() instead of copying the text changes these
+        return rng.choice(['-0', '007', '00', '-00', '0018446744073709551616', '-007', '0-', '1-', '00-1',
+                           '+5', '1_000', '٣', '-0.0', '0.50', '1.', '.5', '1e+05', ' 5', '5 '])
     if r < 0.75:
         return free_text(rng, rng.randrange(1, 14), nasty=0.4)
     return ''.join(rng.choice(string.ascii_letters + string.digits + " .-_/'?*!@#$%^&()[]{}:;,<>|~`+=") for _ in range(rng.randrange(1, 14)))
